@@ -3,8 +3,9 @@ import re
 from props.common_prog import judge_prog
 
 THEOREM_MODULES = ["Hcl.Theorems.C07", "Hcl.Tie.Ops"]
-THEOREMS = {"Hcl.Tie.Ops": ["Tie.Ops.binopKind", "Tie.Ops.applyRawArms", "Tie.Ops.binopApplyText", "Tie.Ops.unopApplyText", "Tie.Ops.maskText"], "Hcl.Theorems.C07": ["C07_cycle", "C07_soundness", "C07_values_fit", "C07_expression",
-                                 "execAction_sound", "processBanks_sound", "ev_correct"]}
+THEOREMS = {"Hcl.Tie.Ops": ["Tie.Ops.binopKind", "Tie.Ops.applyRawArms", "Tie.Ops.binopApplyText", "Tie.Ops.unopApplyText", "Tie.Ops.maskText"], "Hcl.Theorems.C07": ["C07_accepted", "Program_new_sound", "assignmentsToActions_sound", "C07_cycle", "C07_soundness",
+                                 "C07_values_fit", "C07_expression", "execAction_sound", "processBanks_sound", "ev_correct",
+                                 "GBuild.sort_spec", "check_err", "step3_facts", "resolveConstants_constOK", "banks_fold_ok"]}
 
 RULE = ("S-EXPR and S-PROG (all profiles) as for C02/C01, plus the width-mutated S-EXPR stream (programs at the edge of "
         "acceptance). Oracle: an accepted program's run ends every cycle with 'ok' or an explicit DivideByZero report — "
